@@ -3,6 +3,7 @@ package c01
 
 import (
 	"encoding/json"
+	"fmt"
 
 	"verif/harness/exprpos"
 	"verif/harness/gen"
@@ -145,6 +146,28 @@ func generate(w *mon.W) {
 				}
 				c := &Case{X: x, Pos: pos, Seed: 5}
 				w.Do("n|"+pos+"|"+Canon(x), func(r *mon.R) { Check(c, r) })
+			}
+		}
+	}
+	// functions this language does not define (names of the dialect family it
+	// follows, look-alikes of its own built-ins) are passed through by name:
+	// every such name with every shape of argument, alone and as an operand
+	{
+		args := []func() []*E{
+			func() []*E { return []*E{Num("42")} }, func() []*E { return []*E{Un("-", Num("5"))} }, func() []*E { return []*E{Paren(Un("-", Num("1")))} },
+			func() []*E { return []*E{Name("null")} }, func() []*E { return []*E{Name("true")} }, func() []*E { return []*E{Name("ia")} }, func() []*E { return []*E{Un("-", Name("ia"))} },
+			func() []*E { return []*E{StrLit("a", false)} }, func() []*E { return nil }, func() []*E { return []*E{Name("ia"), Num("2")} }, func() []*E { return []*E{Bin(">", Name("ia"), Num("1")), Num("1"), Num("0")} },
+		}
+		ctxs := []func(c *E) *E{
+			func(c *E) *E { return c }, func(c *E) *E { return Un("-", c) }, func(c *E) *E { return Bin("-", Name("ib"), c) }, func(c *E) *E { return Idx(Name("ma"), c) }, func(c *E) *E { return Bin("*", c, c) },
+		}
+		for _, name := range append(append([]string{}, gen.DialectFuncs...), "ISNULL", "IFF", "StrCat", "Now", "COUNT2", "tolower2", "is_null") {
+			for ai, a := range args {
+				for ci, cx := range ctxs {
+					x := cx(Call(name, a()...))
+					c := &Case{X: x, Pos: "extend", Seed: 6}
+					w.Do(fmt.Sprint("d|", name, "|", ai, "|", ci), func(r *mon.R) { Check(c, r) })
+				}
 			}
 		}
 	}
